@@ -3,7 +3,7 @@
 From Verif Require Import Prelude Barcode.
 From Verif Require Import DataMatrixM DataMatrixSpec DataMatrixP1 DataMatrixProps.
 From Verif Require Import QRM QRSpec QRP6Compose QRProps.
-From Verif Require Import AztecM AztecSpec AztecProps TabPdf417 Pdf417M Pdf417Spec Pdf417Props.
+From Verif Require Import AztecM AztecSpec AztecProps TabPdf417 Pdf417M Pdf417Spec Pdf417Props ExamplesP.
 
 (* QR: the format information read from the symbol names the requested level; every block
    carries exactly the ISO (Table 9) number of check codewords for that version and level, the
@@ -44,3 +44,13 @@ Theorem C12_datamatrix : forall content bc, bytes content -> dm_encode content =
     /\ dm_codewords (bc_rows bc) = Some cws /\ zlength cws = iso_data e + iso_ecc e /\ rs_ok e cws = true.
 Proof. exact dm_c12. Qed.
 Print Assumptions C12_datamatrix.
+
+(* the premises of the theorems above are satisfiable: one accepted input per 2-D symbology *)
+Example C12_nonvacuous :
+  accepted (dm_encode [72; 101; 108; 108; 111; 32; 49; 50; 51; 52])
+  /\ bytes [72; 101; 108; 108; 111; 32; 49; 50; 51; 52]
+  /\ accepted (qr_encode [104; 101; 108; 108; 111] 1 0 3)
+  /\ is_bytes [104; 101; 108; 108; 111] /\ valid_encoding 0
+  /\ accepted (az_encode c03_hello 33 0) /\ az_in_domain c03_hello 33
+  /\ accepted (pdf_encode pdf_ex_padpunct 2 3) /\ pdf_bytes pdf_ex_padpunct.
+Proof. exact twod_examples. Qed.
